@@ -618,6 +618,59 @@ def Expr.operands : Expr → List Operand
   | .neg e => e.operands
   | .bin _ _ _ l r => l.operands ++ r.operands
 
+/-! #### the FORMULA route (query token `fx!`): metrics explorer time series API and metric alerts
+
+A formula over named queries (`a * a`, `a / b`, `a + a - b`, `a * 2`) MEANS the PromQL expression in which every name
+is replaced by its query: the value of `a * a` with a := sel is the value of `sel * sel` — `evalExpr`, nothing else.
+In particular an expression whose two operands are the same query pairs every label set with itself.
+
+The engine runs this route (promql.ProcessMetricsQueryRequest → ExecuteMultipleMetricsQuery) with a convention of its
+own: as long as AT MOST ONE vector operand of the whole expression (counted with repetition: a query used twice counts
+twice) has more than one series, the operators without on()/ignoring() do not match label sets — a vector is combined
+with a single-series vector whatever the labels (`a / total`).  That convention is not part of this specification.
+So a formula is JUDGED where the two readings cannot differ:
+  * `formulaStrict`: at least two vector operands (with repetition) have more than one element — label matching is
+    in force for the whole expression, the route must answer exactly as the PromQL route;
+  * `looseAgrees`: every vector–vector operator without matching clause has operands of at most one element each,
+    with equal label sets when both have one and the operator is not and/or/unless (and it is not or/unless when one
+    of them is empty).
+Everything else on this route is not judged (answer kind mbin-undefined, lat=formula-loose-matching). -/
+
+def operandMulti (ds : List Series) (start end_ : Nat) (o : Operand) : Bool :=
+  match evalOperandAt ds start end_ o with
+  | some es => es.length > 1
+  | none => false
+
+/-- number of vector operands (with repetition) whose vector has more than one element -/
+def Expr.multiOperands (ds : List Series) (start end_ : Nat) (e : Expr) : Nat :=
+  (e.operands.filter (operandMulti ds start end_)).length
+
+def formulaStrict (ds : List Series) (start end_ : Nat) (e : Expr) : Bool :=
+  e.multiOperands ds start end_ ≥ 2
+
+def looseAgrees (ds : List Series) (start end_ : Nat) : Expr → Bool
+  | .vec _ => true
+  | .num _ => true
+  | .neg e => looseAgrees ds start end_ e
+  | .bin op _ m l r =>
+    looseAgrees ds start end_ l && looseAgrees ds start end_ r &&
+    (match evalExpr ds start end_ l, evalExpr ds start end_ r with
+     | some (.vector le), some (.vector re) =>
+       !m.isDefault ||
+       ((le ++ re).all (fun e => !e.2.isEmpty) &&
+        (match le, re with
+         | [], [] => true
+         -- (the set operators are not judged here: under the label-free convention `a or b` takes over every sample
+         -- of b, also at the timestamps at which the equally labelled element of a has one)
+         | [x], [y] => x.1 == y.1 && !op.isSet
+         | [_], [] => !(op == .or || op == .unless)
+         | [], [_] => !(op == .or || op == .unless)
+         | _, _ => false))
+     | _, _ => true)
+
+def formulaJudged (ds : List Series) (start end_ : Nat) (e : Expr) : Bool :=
+  formulaStrict ds start end_ e || looseAgrees ds start end_ e
+
 def sameTimestamps (x y : XElem) : Bool :=
   x.2.all (fun p => (ptAt y p.1).isSome) && y.2.all (fun p => (ptAt x p.1).isSome)
 
